@@ -62,6 +62,13 @@ RECEIVERS = [
     ("nested-field", "holder.inner.webview", "holder: Holder"),
     ("method-call-result", "holder.handle()", "holder: Holder"),
     ("method-chain-result", "app.app_handle().clone()", "app: AppHandle"),
+    # "the result of a method call": whatever the call is made on and whatever it is called
+    ("clone-of-other-variable", "handle.clone()", "handle: AppHandle"),
+    ("lock-unwrap-chain", "shared.lock().unwrap()", "shared: std::sync::Arc<std::sync::Mutex<AppHandle>>"),
+    ("as-ref-unwrap-chain", "slot.as_ref().unwrap()", "slot: Option<AppHandle>"),
+    ("borrow-of-cell", "cell.borrow()", "cell: std::cell::RefCell<AppHandle>"),
+    ("lookup-with-arguments", "mgr.get_webview_window(\"main\").unwrap()", "mgr: AppHandle"),
+    ("method-on-field-of-other-variable", "ctx.runtime.handle().clone()", "ctx: Holder"),
 ]
 # payload forms: (label, setup statements, expression, extra fn params, expected type tree or None=unknown)
 def payload_forms(rnd):
